@@ -16,7 +16,7 @@ git apply $OUT/patch.diff; APPLY=$?
 /venv/bin/python $OUT/demo.py > $OUT/.demo_mut.log 2>&1; DEMO_MUT=$?
 /venv/bin/python -m pytest -q -p no:cacheprovider --timeout=900 -n 4 > $OUT/.suite.log 2>&1
 SUITE_LINE=$(tail -1 $OUT/.suite.log)
-FAILED=$(grep -E "^FAILED" $OUT/.suite.log | sed 's/ - .*//' | sort | tr '\n' ';')
+FAILED=$(grep -E "^FAILED" $OUT/.suite.log | sed 's/ - .*//; s/^FAILED //' | sort | tr '\n' ';')
 cd /; git -C /repo worktree remove --force $WT
 HEAD=$(git -C /repo rev-parse --short HEAD)
 python3 - <<PY
